@@ -24,7 +24,7 @@ SPEC = {
     "group": G,
     "level": "proof",
     "harnesses": _hs(),
-    "caps": {"jobs": 2, "mem_gb": 10, "quick_harness_timeout": 400, "thorough_harness_timeout": 900},
+    "caps": {"jobs": 8, "mem_gb": 12, "quick_harness_timeout": 400, "thorough_harness_timeout": 900},
     "functions": [
         "tracing_subscriber::filter::Targets::{new, with_target, with_default, would_enable, default_level}",
         "impl Subscribe<C> for Targets: enabled, register_callsite, max_level_hint; impl Filter<C> for Targets: enabled, callsite_enabled, max_level_hint; Targets::interested",
